@@ -535,7 +535,9 @@ class Gen:
             pend = [m for m in vc.tx if m["cmd"] == cmd and m["req"]]
             if pend and rng.random() < 0.8:
                 hbh, e2e = pend[-1]["hbh"], pend[-1]["e2e"]
-            return M(cmd, False, hbh, e2e, oh=claimed if rng.random() < 0.9 else "", rc=2001)
+            # (an answer is an answer whatever its result: every fourth one reports an error; derived from the identifiers so that
+            #  the random stream - and with it every other history - stays as it was)
+            return M(cmd, False, hbh, e2e, oh=claimed if rng.random() < 0.9 else "", rc=2001 if (hbh + e2e) % 4 else 3004)
         if kind == "req":
             return M("APP", True, hbh, e2e, app=rng.choice(self.app_ids), oh=claimed if rng.random() < 0.95 else "",
                      realm=rng.choices(self.realms, weights=[8, 1, 1, 1, 1])[0], T=rng.random() < 0.3, miss=rng.random() < 0.1)
